@@ -38,8 +38,19 @@ func scalarLattice(rOrder *big.Int, r *Rng, tier string, small bool) []*big.Int 
 	return out
 }
 
+// usedKind: a receiver that already holds an unrelated point ([7]G): a result must overwrite it (s = 0, P = O)
+func (g *Group) usedKind(rk string) reflect.Value {
+	switch rk {
+	case "aff":
+		return g.MulGen(big.NewInt(7))
+	case "jac":
+		return g.ToJac(g.MulGen(big.NewInt(7)))
+	}
+	return g.newKind(rk)
+}
+
 func (g *Group) smEvent(t *TraceWriter, op, rk string, P reflect.Value, pk string, s *big.Int, base bool) {
-	recv := g.newKind(rk)
+	recv := g.usedKind(rk)
 	if !recv.MethodByName(op).IsValid() && !g.C.shim(g.typeName(rk)+"."+op).IsValid() {
 		return // this group does not have the entry point
 	}
@@ -68,7 +79,7 @@ func (g *Group) smEvent(t *TraceWriter, op, rk string, P reflect.Value, pk strin
 }
 
 func (g *Group) jointEvent(t *TraceWriter, op string, P1, P2 reflect.Value, s1, s2 *big.Int) {
-	recv := g.NewJac()
+	recv := g.usedKind("jac")
 	if !recv.MethodByName(op).IsValid() {
 		return
 	}
@@ -290,6 +301,7 @@ func runC03(args []string) {
 			method(kB, "ScalarMultiplication").Call([]reflect.Value{base, reflect.ValueOf(r.Below(order))})
 			id := reflect.New(e.AffT)
 			f.SetRaw(id.Elem().Field(1).Addr(), f.ToMont(big.NewInt(1)))
+			kBp := e.mkPoint("kB", kB, r)
 			for pi, P := range []reflect.Value{base, kB, id} {
 				ep := e.mkPoint("P", P, r)
 				for si, s := range scalars {
@@ -299,7 +311,7 @@ func runC03(args []string) {
 					for _, k := range []string{"aff", "proj", "ext"} {
 						reps := ep.reps[k]
 						in := clonePtr(reps[r.Intn(len(reps))])
-						recv := reflect.New(e.typeOf(k))
+						recv := clonePtr(kBp.reps[k][0]) // a receiver that already holds another point
 						ev := Ev{"op": "ScalarMultiplication", "rk": k, "s": zint(s), "P": tagged(k, in)}
 						_, pm, pk := call(method(recv, "ScalarMultiplication"), in, reflect.ValueOf(new(big.Int).Set(s)))
 						if pk {
